@@ -119,7 +119,7 @@ func collGen(r *rand.Rand, tier string, b collBias) collInput {
 	}
 	for j := 0; j < nops; j++ {
 		if j == stopAt {
-			in.Ops = append(in.Ops, collOp{Op: "stop"})
+			in.Ops = append(in.Ops, collOp{Op: "stop", Stall: r.Intn(2) == 0})
 			break
 		}
 		x := r.Intn(100)
@@ -172,7 +172,12 @@ func collGen(r *rand.Rand, tier string, b collBias) collInput {
 				d = 1
 			}
 			now += d
-			if live {
+			if !live && r.Intn(3) == 0 {
+				// tick immediately followed by a span of a trace that tick has just decided
+				ts := &collSpan{Tid: r.Intn(8), Sid: sid, Cls: r.Intn(3), Pad: []int{0, 7, 64}[r.Intn(3)], Root: r.Intn(4) == 0}
+				sid++
+				in.Ops = append(in.Ops, collOp{Op: "tickspan", D: d, W: r.Intn(8), Span: ts})
+			} else if live {
 				in.Ops = append(in.Ops, collOp{Op: "ltick", D: d})
 			} else {
 				in.Ops = append(in.Ops, collOp{Op: "tick", D: d, W: r.Intn(8)})
